@@ -226,6 +226,10 @@ def run(ck, F):
                 ck.check(R_tgt, f'{sid}#{pi}', False, f'{fid} (when {when or "always"}): returns `{contracts.render(v, st, {})[:100]}`, neither a '
                          'node of its own nor the answer of a sibling factory', loc=f['loc'], fn=fid)
 
+    # a declaration entered into a populated scope reports the type it was declared with (whatever bookkeeping path it took)
+    import c02 as _c02
+    _c02.redeclaration_operands(ck, F, 'C09', only={'type'})
+
     # id-expression of a declaration: that declaration's type
     for fid, paths in cur.items():
         if fid == 'ipr::impl::expr_factory::make_id_expr(const ipr::Decl &)':
